@@ -59,6 +59,9 @@ Oracle boundaries (rule 1)
 * the solvers built on the two-sided Lanczos recurrence (BICG, BICGSTAB, CGS, TFQMR) break down on the ``weakup``
   systems (right-hand side = eigenvector of dR/dy^T) and gemseo raises RuntimeError("... breakdown"): accepted as a
   loud "no result" for these four solvers, counted in the evidence; see ``_is_breakdown``.
+* the dtype part uses integer-coefficient systems, on which those same four solvers stagnate or return NaN (exact
+  near-breakdowns; gemseo logs "did not converge"; identical numbers when the same blocks are declared float64): the
+  dtype axis is crossed with the GMRES-type solvers only (see ``dtype_cases``).
 * a request must be answered within REQUEST_TIMEOUT = 20 s (normal cost < 0.1 s): invariant ``linearize-terminates``
   (a harness guard; after it fires the remaining requests of that configuration are skipped and counted).
 * ``CG`` (and any factory algorithm whose description says the left-hand side must be symmetric / positive
@@ -1155,7 +1158,14 @@ def dtype_cases(thorough: bool, solvers: list):
     for dt in DTYPES:
         kind = "MDANewtonRaphson" if dt in ("int/R", "int/all") else DEFAULT_KIND  # integer couplings: no contraction
         for rep in ("dense", "csr"):
-            for lin in linear_configs(solvers if thorough else ["DEFAULT"], ["DEFAULT"]):
+            # Oracle boundary: the integer-coefficient systems of this part make the (near-)breakdowns of the two-sided Lanczos
+            # recurrence generic (r~.r = 0 exactly): BICG / BICGSTAB / CGS / TFQMR then stagnate or return NaN on a 5 x 5
+            # system with kappa 5, gemseo logs "The linear solver ... did not converge", and the very same numbers come out
+            # when the same blocks are declared as float64 (checked) - a limitation of those methods on these matrices, not
+            # a dtype effect.  The dtype axis is therefore crossed with the GMRES-type solvers only; the float systems of
+            # part A keep the full solver product.
+            dsolvers = [s for s in solvers if s not in LANCZOS_TYPE]
+            for lin in linear_configs(dsolvers if thorough else ["DEFAULT"], ["DEFAULT"]):
                 for graph in (GRAPHS if thorough else DTYPE_GRAPHS_QUICK):
                     yield {"part": "dtype", "cfg": {"graph": graph, "mda": kind, **lin, "rep": rep, "dt": dt}, "point": 1,
                            "calls": "all" if thorough else "reduced"}
